@@ -894,6 +894,39 @@ Proof.
   rewrite <- H. apply Permutation_app_comm.
 Qed.
 
+
+(* ---------- frame: the helper touches the world only through logged operations ---------- *)
+
+Lemma app_one_neq (l : list V) x : l ++ [x] <> l.
+Proof. intros E. apply (f_equal (@length V)) in E. rewrite app_length in E. cbn in E. lia. Qed.
+
+(* A helper step that adds nothing to the helper's part of the log leaves the
+   whole world (channel contents, queues, closed flag, timer, log) untouched. *)
+Theorem no_log_no_change c w p w' p' : hstep zero c w p = Some (w', p') ->
+  sent_by Helper (log w') = sent_by Helper (log w) ->
+  rcvd_by Helper (log w') = rcvd_by Helper (log w) -> w' = w.
+Proof.
+  intros E Hs Hr. apply hstep_world in E as [->|[[v E]|(x & ok & E)]]; [reflexivity| |].
+  - apply try_send_H in E as (E & _). rewrite E in Hs. apply app_one_neq in Hs. contradiction.
+  - apply try_recv_H in E as (_ & _ & [[_ E]|(_ & _ & -> & _)]); [|reflexivity].
+    rewrite E in Hr. apply app_one_neq in Hr. contradiction.
+Qed.
+
+(* once the timer has fired / the context is cancelled, a select helper can always return;
+   a helper without limit is blocked exactly while the channel is not ready *)
+Theorem enabledness c w v :
+  (done w = true -> hstep zero c w (PSendSelect v) <> None /\ hstep zero c w PRecvSelect <> None) /\
+  (hstep zero c w (PSendBlock v) = None <-> try_send Helper v w = WouldBlock) /\
+  (hstep zero c w PRecvBlock = None <-> try_recv zero Helper w = None).
+Proof.
+  split; [|split].
+  - intros Hd. split; cbn [hstep]; rewrite Hd.
+    + destruct (try_send Helper v w); destruct c; cbn [send_commit]; discriminate.
+    + destruct (try_recv zero Helper w) as [[[w' x] ok]|]; destruct c; discriminate.
+  - cbn [hstep]. destruct (try_send Helper v w); cbn [send_commit]; split; intros; try discriminate; reflexivity.
+  - cbn [hstep]. destruct (try_recv zero Helper w) as [[[w' x] ok]|]; split; intros; try discriminate; reflexivity.
+Qed.
+
 End Proofs.
 
 (* ---------- concrete instances (non-vacuity) ---------- *)
